@@ -10,6 +10,10 @@ Accessors(kind) ==
         {"blocks", "num_blocks", "is_overlapping", "is_contiguous", "start_end", "len", "extract_sequence", "gap_list",
          "gaps_location", "full_span", "scan_blocks", "hash", "str", "rel_to_parent_0", "parent_to_rel_first",
          "first_ancestor", "has_ancestor", "first_ancestor_asm", "has_ancestor_asm", "parent_depth", "eq_twin"}
+    [] kind = "parent" ->
+        {"id", "sequence_type", "strand", "location", "sequence", "parent_of_parent", "hash", "repr", "eq_twin",
+         "strip_location_info", "reset_location_none", "first_ancestor", "has_ancestor", "has_ancestor_sequence",
+         "equals_except_location_twin"}
     [] kind = "sequence" ->
         {"str", "len", "hash", "location_on_parent", "parent_strand", "slice_1_3", "reverse_complement", "summary",
          "has_ancestor", "eq_twin"}
@@ -38,6 +42,7 @@ Operations(kind) ==
                              "reverse", "reset_strand", "shift", "relative_interval", "location_relative_to_other",
                              "merge_overlapping", "optimize_and_combine", "extend_absolute_0", "minus_disjoint",
                              "intersection_self", "contains_other", "has_overlap_other", "gaps_op", "scan_windows_op"}
+    [] kind = "parent" -> {"reset_location_other", "strip_then_reset", "make_location_on_it", "build_equal_parent"}
     [] kind = "sequence" -> {"append_other", "reverse_complement_op", "slice_op"}
     [] kind = "cds" -> {"to_gff", "to_gff_parent_qualifiers", "export_qualifiers_parent", "optimize_blocks_op",
                         "liftover_to_chunk", "incorporate_variant"}
@@ -46,6 +51,6 @@ Operations(kind) ==
     [] kind = "gene" -> {"to_gff", "query_by_guids", "liftover_to_chunk", "incorporate_variant"}
     [] kind = "collection" -> {"to_gff", "query_by_position", "query_by_interval_guids", "to_genbank_dict",
                                "incorporate_variant"}
-Kinds == {"location", "sequence", "cds", "transcript", "gene", "collection"}
+Kinds == {"location", "parent", "sequence", "cds", "transcript", "gene", "collection"}
 Alphabet(kind) == Accessors(kind) \cup Operations(kind) \cup CacheActions
 =============================================================================
